@@ -9,6 +9,7 @@ mod alloc;
 mod gen;
 mod io;
 mod json;
+mod mutate;
 mod obs;
 mod prng;
 mod props;
